@@ -96,10 +96,10 @@ static void op_lwelin(const V &a, V &r) {  // opcode n p a1(n) b1 a2(n) b2 ; opc
         case 1: case 8: lweSubTo(c1, s, lp); break;
         case 2: lweAddMulTo(c1, p, s, lp); break;
         case 3: lweSubMulTo(c1, p, s, lp); break;
-        case 4: lweNegate(res, c1, lp); out = res; break;
+        case 4: if (alias) { lweNegate(c1, c1, lp); out = c1; } else { lweNegate(res, c1, lp); out = res; } break;
         case 5: lweClear(res, lp); out = res; break;
         case 6: lweNoiselessTrivial(res, p, lp); out = res; break;
-        case 7: lweCopy(res, c1, lp); out = res; break;
+        case 7: if (alias) { lweCopy(c1, c1, lp); out = c1; } else { lweCopy(res, c1, lp); out = res; } break;
     }
     if (!g1.intact() || !g2.intact() || !g3.intact()) { r.push_back(-1); r.push_back(-1); r.push_back(-1); }
     else { for (int i = 0; i < n; i++) r.push_back(out->a[i]); r.push_back(out->b); }
